@@ -152,18 +152,31 @@ def build_items(shapes, tier, sd, A):
     items = []
     nshape = len(shapes)
     mul_ns = [[2, 1], [3, 1], [1, 2], [5, 2], [10, 1]]
-    for i, toks in enumerate(shapes):
-        op = "none"
-        if i % 5 == 3:
-            op = "add"
-        elif i % 7 == 5:
-            op = "mul"
-        n = rnd.choice(mul_ns) if op == "mul" else [1, 1]
+    def item(toks, op, i, toks2=None, v="", n=None):
+        n = n or [1, 1]
         toks = redraw_mults(toks, rnd, extra=n[0])
-        toks2 = redraw_mults(shapes[rnd.randrange(nshape)], rnd) if op == "add" else []
-        vs = [v for v in VARS4 if v in toks or v in toks2]
-        items.append(dict(kind="formula", toks=toks, bind=binder.bind(vs), natural=bool((i + sd) % 2 == 0), op=op,
-                          toks2=toks2, n=n, wide=rnd.random() < 0.3, wseed=rnd.randrange(1 << 30)))
+        toks2 = redraw_mults(toks2, rnd) if toks2 is not None else []
+        vs = [x for x in VARS4 if x in toks or x in toks2 or x == v]
+        return dict(kind="formula", toks=toks, bind=binder.bind(vs), natural=bool((i + sd) % 2 == 0), op=op,
+                    toks2=toks2, v=v, n=n, wide=rnd.random() < 0.3, wseed=rnd.randrange(1 << 30))
+    for i, toks in enumerate(shapes):
+        if i % 5 == 3:
+            items.append(item(toks, "add", i, toks2=shapes[rnd.randrange(nshape)]))
+        elif i % 7 == 5:
+            items.append(item(toks, "mul", i, n=rnd.choice(mul_ns)))
+        elif i % 11 == 7:
+            items.append(item(toks, "addin", i, toks2=shapes[rnd.randrange(nshape)], v=rnd.choice(VARS4[:2]), n=[rnd.randint(1, 5), 1]))
+        elif i % 13 == 9:
+            items.append(item(toks, "perturb", i))
+        else:
+            items.append(item(toks, "none", i))
+    # histories on the smallest formulas, systematically: the formula, an in-place add() of each of two species, then
+    # later parses of another formula containing that species and of the formula itself
+    small = [t for t in shapes if len(t) <= 3]
+    withv = {v: [t for t in shapes if v in t and 2 <= len(t) <= 8] for v in VARS4[:2]}
+    for k, toks in enumerate(small):
+        for v in VARS4[:2]:
+            items.append(item(toks, "addin", k, toks2=rnd.choice(withv[v]), v=v, n=[rnd.randint(1, 4), 1]))
     # elements without natural abundances, isotope not given: outside the property (unspecified), once each
     for k, sp in enumerate(binder.unsp):
         sp = dict(sp); sp["key"] = A.sp_key(sp)
@@ -228,16 +241,28 @@ def replay_formula(rec):
                              "expected": {"bag": rec["bag"]}, "observed": "raises " + repr(e)[:160]})
         try:
             A.observe_substance(s, inv, "A.", obs)
-            if it["op"] == "add":
-                text2 = A.render(it["toks2"], bind)
-                r = s + A.Substance(text2, natural=nat)
+            op = it["op"]
+            if op == "add":
+                b = A.Substance(A.render(it["toks2"], bind), natural=nat)
+                r = s + b
                 A.observe_substance(r, inv, "R.", obs)
-            elif it["op"] == "mul":
+                A.observe_substance(s, inv, "A2.", obs)          # the operands after the addition
+                A.observe_substance(b, inv, "B.", obs)
+            elif op == "mul":
                 n = it["n"]
                 r = s * (n[0] if n[1] == 1 else n[0] / n[1])
                 A.observe_substance(r, inv, "R.", obs)
+                A.observe_substance(s, inv, "A2.", obs)
+            elif op == "addin":
+                s.add(A.sp_text(bind[it["v"]]), it["n"][0])       # in place
+                A.observe_substance(s, inv, "R.", obs)
+                A.observe_substance(A.Substance(A.render(it["toks2"], bind), natural=nat), inv, "B.", obs)   # parsed later
+                A.observe_substance(A.Substance(text, natural=nat), inv, "C.", obs)
+            elif op == "perturb":
+                A.perturb_reported(s)
+                A.observe_substance(s, inv, "R.", obs)
         except Exception as e:
-            return ("fail", {"text": text, "failure": "rejected", "clause": "components / data tables / a+b / a*n can be obtained",
+            return ("fail", {"text": text, "failure": "rejected", "clause": "components / data tables / a+b / a*n / add() can be obtained",
                              "expected": {"bag": rec["bag"]}, "observed": "raises " + repr(e)[:160]})
         bad = T.failing(rec["obl"], T.Env(obs=obs, tab=A.tab, ref=_ref))
         if bad:
